@@ -1,13 +1,16 @@
 #!/usr/bin/env python3
-"""Copies confirmed seeded changes from /tmp/out into /verif/seeded/<id>-<i>/."""
-import json, os, glob, shutil, re
-for rf in sorted(glob.glob('/tmp/out/C*/[0-9]/result.json')):
+"""Copies confirmed seeded changes from $SEED_BASE (default /tmp/out) into /verif/seeded/<id>-<i+offset>/.
+usage: SEED_BASE=/tmp/out2 save_seeds.py [offset]"""
+import json, os, glob, shutil, re, sys
+BASE = os.environ.get("SEED_BASE", "/tmp/out")
+OFF = int(sys.argv[1]) if len(sys.argv) > 1 else 0
+for rf in sorted(glob.glob(BASE + '/C*/[0-9]/result.json')):
     r = json.load(open(rf))
     if r.get('verdict') != 'confirmed':
         print('skip', rf, r.get('verdict')); continue
     src = os.path.dirname(rf)
     pid, idx = r['property'], r['index']
-    dst = '/verif/seeded/%s-%s' % (pid, idx)
+    dst = '/verif/seeded/%s-%d' % (pid, int(idx) + OFF)
     os.makedirs(dst, exist_ok=True)
     open(dst + '/patch.diff', 'w').write(r['patch_on_head'])
     for f in glob.glob(src + '/*_test.go'):
